@@ -119,6 +119,12 @@ void harness(void) {
 		VF_ASSERT(vf_bt_inside(node->raw, node->raw_size, buf, buf_size), "raw span inside the buffer");
 		VF_ASSERT(node->type != BT_EN_TYPE_STR || (node->val.s == node->raw && node->val_count == 1), "byte string = its raw span");
 		VF_ASSERT(node->type > BT_EN_TYPE_NUM || node->val_count == 1, "leaf value count");
+#ifdef VF_BT_CHECK_ITEMS
+		/* container: the item array is there (pointer value only: CBMC 6.11 cannot follow a pointer
+		 * read from this union member, see contracts/bt_encode.h) */
+		VF_ASSERT(node->type <= BT_EN_TYPE_NUM || node->val_count == 0 || node->val.l != NULL,
+		    "container with items has its item array");
+#endif
 	}
 	VF_CANARY("bt_level harness end");
 }
